@@ -35,6 +35,113 @@ def known_functions() -> Set[str]:
         return set()
 
 
+def known_fingerprints() -> Dict[str, dict]:
+    p = os.path.join(_HERE, "known_functions.json")
+    try:
+        with open(p) as fh:
+            return json.load(fh).get("fingerprints", {})
+    except (OSError, ValueError):
+        return {}
+
+
+def fingerprint(fn: ast.AST) -> dict:
+    """what a function is made of, independent of its own name: parameter names and the identifiers it uses"""
+    a = fn.args
+    params = [x.arg for x in a.posonlyargs + a.args + a.kwonlyargs]
+    idents = set()
+    for x in ast.walk(fn):
+        if isinstance(x, ast.Name):
+            idents.add(x.id)
+        elif isinstance(x, ast.Attribute):
+            idents.add("." + x.attr)
+    return {"params": params, "idents": sorted(idents), "decorators": sorted(ast.unparse(d) for d in fn.decorator_list)}
+
+
+def detect_renames(trees: Dict[str, ast.Module]) -> Dict[str, Dict[str, str]]:
+    """{module: {new name: reference name}} for functions/methods of the reference tree that are absent under their
+    own name while a function absent from the reference tree, in the same scope, has the same parameter count, the
+    same decorators and mostly the same identifiers (Jaccard >= 0.5, best and unambiguous match)."""
+    fps = known_fingerprints()
+    if not fps:
+        return {}
+    out: Dict[str, Dict[str, str]] = {}
+    for mod, tree in trees.items():
+        scopes = [("", tree.body)] + [(c.name + ".", c.body) for c in tree.body if isinstance(c, ast.ClassDef)]
+        for prefix, body in scopes:
+            defs = [s for s in body if isinstance(s, (ast.FunctionDef, ast.AsyncFunctionDef))]
+            have = {d.name for d in defs}
+            ref = {k.split(":", 1)[1][len(prefix):]: v for k, v in fps.items()
+                   if k.startswith(mod + ":" + prefix) and "." not in k.split(":", 1)[1][len(prefix):]}
+            missing = {n: fp for n, fp in ref.items() if n not in have}
+            new = [d for d in defs if d.name not in ref]
+            if not missing or not new:
+                continue
+            cands = []
+            for d in new:
+                fp = fingerprint(d)
+                for n, rf in missing.items():
+                    if len(fp["params"]) != len(rf["params"]) or fp["decorators"] != rf.get("decorators", []):
+                        continue
+                    a_, b_ = set(fp["idents"]) - {d.name, "." + d.name}, set(rf["idents"]) - {n, "." + n}
+                    j = len(a_ & b_) / max(1, len(a_ | b_))
+                    if j >= 0.5:
+                        cands.append((j, d.name, n))
+            cands.sort(reverse=True)
+            used_new, used_old = set(), set()
+            for j, nn, on in cands:
+                if nn in used_new or on in used_old:
+                    continue
+                used_new.add(nn)
+                used_old.add(on)
+                out.setdefault(mod, {})[nn] = on
+    return out
+
+
+class _Rename(ast.NodeTransformer):
+    def __init__(self, mapping: Dict[str, str]):
+        self.m = mapping
+
+    def visit_FunctionDef(self, node):
+        self.generic_visit(node)
+        if node.name in self.m:
+            node.name = self.m[node.name]
+        return node
+
+    def visit_Name(self, node):
+        if node.id in self.m:
+            node.id = self.m[node.id]
+        return node
+
+    def visit_Attribute(self, node):
+        self.generic_visit(node)
+        if node.attr in self.m:
+            node.attr = self.m[node.attr]
+        return node
+
+    def visit_alias(self, node):
+        if node.name in self.m:
+            node.name = self.m[node.name]
+        return node
+
+
+def undo_renames(trees: Dict[str, ast.Module]) -> Dict[str, str]:
+    """Functions of the reference tree that were merely renamed get their reference name back, everywhere in the
+    package (definition, calls, imports), so that every anchor is found under the name the rules know."""
+    ren = detect_renames(trees)
+    flat: Dict[str, str] = {}
+    defined = {d.name for t in trees.values() for d in ast.walk(t) if isinstance(d, (ast.FunctionDef, ast.AsyncFunctionDef))}
+    for mod, mp in ren.items():
+        for nn, on in mp.items():
+            # the new name must be unambiguous in the package, the reference name free
+            if sum(1 for t in trees.values() for d in ast.walk(t) if isinstance(d, (ast.FunctionDef, ast.AsyncFunctionDef)) and d.name == nn) == 1 \
+                    and on not in defined and nn not in flat:
+                flat[nn] = on
+    if flat:
+        for t in trees.values():
+            _Rename(flat).visit(t)
+    return flat
+
+
 class NotInlinable(Exception):
     pass
 
